@@ -5,6 +5,7 @@ import TinodeVerif.Driver.C17
 import TinodeVerif.Driver.C19
 import TinodeVerif.Driver.C12
 import TinodeVerif.Driver.C18
+import TinodeVerif.Driver.World
 /-!
 Line-protocol driver. Usage:
   driver model    < ops.txt        > model.out     one output line per op line
@@ -71,6 +72,19 @@ partial def loopModel (h : IO.FS.Stream) (out : IO.FS.Stream) (st : DState) : IO
   out.putStrLn o
   loopModel h out st'
 
+partial def loopWorld (h : IO.FS.Stream) (out : IO.FS.Stream) (st : Driver.World.WSt) : IO Unit := do
+  let line ← h.getLine
+  if line.isEmpty then return ()
+  let l := if line.endsWith "\n" then (line.dropEnd 1).toString else line
+  let ws := Wire.words l
+  if ws.isEmpty then
+    out.putStrLn ""
+    loopWorld h out st
+  else
+    match Driver.World.step st ws with
+    | some (st', o) => out.putStrLn o; loopWorld h out st'
+    | none => out.putStrLn "bad-op"; loopWorld h out st
+
 partial def loop (h : IO.FS.Stream) (out : IO.FS.Stream) (f : String → String) : IO Unit := do
   let line ← h.getLine
   if line.isEmpty then return ()
@@ -84,4 +98,5 @@ def main (args : List String) : IO UInt32 := do
   match args with
   | ["model"] => loopModel stdin stdout {}; stdout.flush; return 0
   | ["verdict"] => loop stdin stdout verdictLine; stdout.flush; return 0
+  | ["world"] => loopWorld stdin stdout {}; stdout.flush; return 0
   | _ => IO.eprintln "usage: driver model|verdict"; return 2
